@@ -126,9 +126,12 @@ def get_family(mod, tier, name):
 # known findings
 # --------------------------------------------------------------------------
 def load_known(pid):
-  path = os.path.join(VERIF, 'known_findings.jsonl')
+  paths = [os.path.join(VERIF, 'known_findings.jsonl'),
+           os.path.join(VERIF, 'known_findings.d', '%s.jsonl' % pid)]
   recs = []
-  if os.path.exists(path):
+  for path in paths:
+    if not os.path.exists(path):
+      continue
     for line in open(path):
       line = line.strip()
       if not line or line.startswith('#'):
